@@ -463,17 +463,38 @@ def rule_response(ck):
                     cl_values.append((sfi, t_.elts[1], mp))
         else:
             raise AnalysisError("C47.response: name of the inserted default header %s not recognised" % q.unparse(N))
-        guard = [t for t, pol in F if not pol and t.startswith(want)]
-        if not guard and any((hname.strip("<>").lower() in t.lower()) for t, _pol in F):
+        # presence tests that guard this insertion: `<probe> in <S>` known false, where the probe is the header name as a
+        # literal (any spelling) or the name variable (raw or lower-cased)
+        guards = []   # (probe is lower-cased?, text of S)
+        for t, pol in F:
+            if pol or t.startswith("@"):
+                continue
+            try:
+                e = ast.parse(t, mode="eval").body
+            except SyntaxError:
+                continue
+            if not (isinstance(e, ast.Compare) and len(e.ops) == 1 and isinstance(e.ops[0], ast.In)):
+                continue
+            probe, coll = e.left, q.unparse(e.comparators[0])
+            if isinstance(N, ast.Constant):
+                if isinstance(probe, ast.Constant) and isinstance(probe.value, str) and probe.value.lower() == hname.lower():
+                    guards.append((probe.value == probe.value.lower(), coll))
+            else:
+                if isinstance(probe, ast.Call) and q.call_attr(probe) in ("lower", "casefold") and q.dotted(probe.func.value) == N.id:
+                    guards.append((True, coll))
+                elif q.dotted(probe) == N.id:
+                    guards.append((False, coll))
+        if not guards and any((hname.strip("<>").lower() in t.lower()) for t, _pol in F):
             raise AnalysisError("C47.response: the presence test guarding the default %s is not of a recognised form" % hname)
         n += 1
-        ck.ob("C47.response", sfi, c, bool(guard), "default %s is added only under a 'lower-cased name not in <app header names>' test (the application's header is never overridden or duplicated)" % hname)
-        ident = [t for t in guard if t[len(want):].isidentifier()]
-        for t in (ident or guard[:1]):
-            sv = t[len(want):]
+        ck.ob("C47.response", sfi, c, bool(guards), "default %s is added only under a '<name> not in <app header names>' test (the application's header is never overridden or duplicated)" % hname)
+        ident = [g for g in guards if g[1].isidentifier()]
+        for probe_lower, sv in (ident or guards[:1]):
             low, from_list = lowered_set(sfi, sv, recv)
             n += 2
-            ck.ob("C47.response", sfi, c, low, "the absence test for %s looks at the lower-cased set of application header names (%s)" % (hname, sv))
+            ck.ob("C47.response", sfi, c, low and probe_lower,
+                  "the absence test for %s is case-insensitive: a lower-cased probe against the lower-cased set of application header names (%s) — %s" % (
+                      hname, sv, "ok" if (low and probe_lower) else ("the set keeps the application's spelling, so 'content-type' does not count as present" if not low else "the probe is not lower-case, so it can never be found in a lower-cased set")))
             ck.ob("C47.response", sfi, c, from_list, "the names tested are those of the list the default is appended to (%s)" % recv)
     if not cl_values:
         raise AnalysisError("C47.response: default Content-Length value not found")
@@ -738,6 +759,8 @@ MUTANTS = [
     ("response: chunks joined with a newline", _e(replace_expr(lambda n: isinstance(n, ast.Constant) and n.value == b"", lambda n: ast.Constant(value=b"\n")), HR), "C47.response"),
     ("seeded C47-adv2: sentinel b'' and 'if not chunk' (an empty chunk ends the body early)", _e(lambda root: _empty_sentinel(root), HR), "C47.response"),
     ("response: chunk loop stops on a falsy chunk (sentinel still None)", _e(replace_expr(lambda n: isinstance(n, ast.Compare) and _src(n) == "chunk is None", lambda n: parse_expr("not chunk")), HR), "C47.response"),
+    ("seeded C47-adv5: presence tests compare canonical spellings with the application's own spellings (no lower-casing on either side)", _e(lambda root: _case_sensitive_defaults(root), HR), "C47.response"),
+    ("response: probes title-cased but the set still lower-cased (defaults always added)", _e(replace_expr(lambda n: isinstance(n, ast.Constant) and n.value in ("content-length", "content-type", "server"), lambda n: ast.Constant(value=n.value.title()), limit=3), HR), "C47.response"),
     ("response: status split at every space (reason truncated, unpack error for 3 words)", _e(replace_expr(lambda n: isinstance(n, ast.Call) and q.call_attr(n) == "split" and "status" in _src(n), lambda n: ast.Call(func=n.func, args=n.args[:1], keywords=[])), HR), "C47.response"),
     ("response: Server default tested against the raw header list", _e(replace_expr(lambda n: isinstance(n, ast.Compare) and "'server'" in _src(n), lambda n: parse_expr("'server' not in headers")), HR), "C47.response"),
 ]
@@ -783,3 +806,16 @@ def _content_prefix(root):
     for i in sorted(idx, reverse=True):
         del body[i]
     return True
+
+
+def _case_sensitive_defaults(root):
+    done = 0
+    for node in ast.walk(root):
+        if isinstance(node, ast.SetComp) and isinstance(node.elt, ast.Call) and q.call_attr(node.elt) == "lower":
+            node.elt = node.elt.func.value
+            done += 1
+    for node in ast.walk(root):
+        if isinstance(node, ast.Compare) and isinstance(node.left, ast.Constant) and node.left.value in ("content-length", "content-type", "server"):
+            node.left = ast.Constant(value=node.left.value.title())
+            done += 1
+    return done == 4
